@@ -31,17 +31,17 @@ import (
 )
 
 type realScen struct {
-	First    string `json:"first"` // acc | grease (stale config) | plain (no ECH)
-	HRR      bool   `json:"hrr"`
-	Resume   bool   `json:"resume"`
-	CAuth    bool   `json:"cauth"`
-	ALPN     int    `json:"alpn"`    // 0 none, 1 [h2], 2 [h2 http/1.1] vs backend [http/1.1 h2]
-	NameLen  int    `json:"namelen"` // inner server name length
-	Chain    int    `json:"chain"`   // approx. certificate chain size in bytes
-	Keys     string `json:"keys"`    // K1 | K2K1 | K1K4 | K3K1
-	Suite    string `json:"suite"`   // s1 s2 s3
-	PQ       bool   `json:"pq"`      // X25519MLKEM768 key share (1.2 KB)
-	Expect   struct {
+	First   string `json:"first"` // acc | grease (stale config) | plain (no ECH)
+	HRR     bool   `json:"hrr"`
+	Resume  bool   `json:"resume"`
+	CAuth   bool   `json:"cauth"`
+	ALPN    int    `json:"alpn"`    // 0 none, 1 [h2], 2 [h2 http/1.1] vs backend [http/1.1 h2]
+	NameLen int    `json:"namelen"` // inner server name length
+	Chain   int    `json:"chain"`   // approx. certificate chain size in bytes
+	Keys    string `json:"keys"`    // K1 | K2K1 | K1K4 | K3K1
+	Suite   string `json:"suite"`   // s1 s2 s3
+	PQ      bool   `json:"pq"`      // X25519MLKEM768 key share (1.2 KB)
+	Expect  struct {
 		ClientEch bool   `json:"client_ech_accepted"`
 		RoutedOn  string `json:"routed_on"`
 		Retry     bool   `json:"retry_configs"`
@@ -51,13 +51,13 @@ type realScen struct {
 
 // ---- certificates
 type pki struct {
-	ca      *x509.Certificate
-	caKey   *ecdsa.PrivateKey
-	pool    *x509.CertPool
-	serial  int64
-	filler  [][]byte // big dummy certificates used to pad chains
-	mu      sync.Mutex
-	byName  map[string]tls.Certificate
+	ca     *x509.Certificate
+	caKey  *ecdsa.PrivateKey
+	pool   *x509.CertPool
+	serial int64
+	filler [][]byte // big dummy certificates used to pad chains
+	mu     sync.Mutex
+	byName map[string]tls.Certificate
 }
 
 func newPKI() *pki {
@@ -151,7 +151,11 @@ func (c *chunkPipe) Write(p []byte) (int, error) {
 	return n, err
 }
 func (c *chunkPipe) nWritten() int { c.mu.Lock(); defer c.mu.Unlock(); return len(c.written) }
-func (c *chunkPipe) writtenBytes() []byte { c.mu.Lock(); defer c.mu.Unlock(); return bytes.Clone(c.written) }
+func (c *chunkPipe) writtenBytes() []byte {
+	c.mu.Lock()
+	defer c.mu.Unlock()
+	return bytes.Clone(c.written)
+}
 
 // tapClient records what the TLS client sent.
 type tapClient struct {
